@@ -603,8 +603,7 @@ class Interp:
         from .seams import SIM
         start = self.call_mut_start.get(key, 0)
         fidx = (SIM.fault_fired or {}).get('index', -1)
-        moved = [rel for (idx, knd, rel) in SIM.mut_log
-                 if start <= idx < fidx and knd in ('rename', 'replace')]
+        moved = [rel for (idx, rel) in SIM.moves if start <= idx < fidx]
         self.injected_calls.append((key, type(e),
                                     self.call_counts.get(key, 1), moved))
 
